@@ -820,6 +820,27 @@ def shallow_copy_writes(project: Project, classes=None) -> List[dict]:
     return out
 
 
+def broadcasting_equalities(project: Project, classes=None) -> List[dict]:
+    """Pattern J — `np.array_equiv` in an `__eq__`: it compares after broadcasting, so a one-element array equals any array of
+    that element repeated and an empty one equals everything — two objects holding different data compare equal, and whatever
+    is keyed or reused by that equality (a memo of results, a de-duplication) confuses them.  dict(fi, node, cls, why)."""
+    out = []
+    for cq, c in sorted(project.classes.items()):
+        if classes is not None and cq not in classes:
+            continue
+        m = c.methods.get("__eq__")
+        if m is None or not isinstance(m.node, ast.FunctionDef):
+            continue
+        for n in ast.walk(m.node):
+            if isinstance(n, ast.Call) and isinstance(n.func, (ast.Name, ast.Attribute)) and \
+                    (n.func.attr if isinstance(n.func, ast.Attribute) else n.func.id) == "array_equiv":
+                out.append(dict(fi=m, node=n, cls=c,
+                                why=f"{c.name}.__eq__ compares with `{ast.unparse(n)[:60]}`: np.array_equiv broadcasts, so data of different "
+                                    f"shape compare equal ([c] == [c, c, c], [] == anything) — objects holding different data are taken "
+                                    f"for the same one wherever this equality decides (reuse of a computed value, de-duplication)"))
+    return out
+
+
 def check(project: Project, rep, rule: str = "ST-CACHE"):
     """module-level caches written by the code a check analysed (and what it calls): a cache that is keyed by too little
     makes the analysed function's result depend on earlier calls — whatever that function computes.  Only the two memo
@@ -875,6 +896,9 @@ def check(project: Project, rep, rule: str = "ST-CACHE"):
     for r in setter_bypasses(project, reached):
         n += 1
         rep.refuted(rule, r["fi"], r["node"], r["why"], construct=f"{r['fi'].qualname}: setter of {r['prop']} bypassed")
+    for r in broadcasting_equalities(project, reached):
+        n += 1
+        rep.refuted("ST-EQ", r["fi"], r["node"], r["why"], construct=f"{r['fi'].qualname}: array_equiv in __eq__")
     for r in shallow_copy_writes(project, reached):
         n += 1
         rep.refuted("ST-ALIAS", r["fi"], r["node"], r["why"], construct=f"{r['fi'].qualname}: in-place write into shared {r['attr']}")
